@@ -211,36 +211,145 @@ def r3_label_lengths(ctx, rule):
         ctx.ok(rule, q, 'A/D/O/K measured as int(label[1:]), Y as 4', facts)
 
 
+def _emissions(fn):
+    """Statements that add text to the result of a filter function: `acc += text`, or `acc.append(text)` with `''.join(acc)` returned.
+    -> (list of (stmt, text expr)), accumulator name"""
+    out = []
+    acc = None
+    rets = [r for r in walk_local(fn) if isinstance(r, ast.Return) and r.value is not None]
+    for r in rets:
+        v = r.value
+        if isinstance(v, ast.Name):
+            acc = v.id
+        elif isinstance(v, ast.Call) and isinstance(v.func, ast.Attribute) and v.func.attr == 'join' and const(v.func.value) == '' \
+                and len(v.args) == 1 and isinstance(v.args[0], ast.Name):
+            acc = v.args[0].id
+    if acc is None:
+        return [], None
+    for st in walk_stmts(fn.body):
+        if isinstance(st, ast.AugAssign) and U(st.target) == acc and isinstance(st.op, ast.Add):
+            out.append((st, st.value))
+        elif isinstance(st, ast.Expr) and isinstance(st.value, ast.Call) and isinstance(st.value.func, ast.Attribute) \
+                and st.value.func.attr == 'append' and U(st.value.func.value) == acc and len(st.value.args) == 1:
+            out.append((st, st.value.args[0]))
+    return out, acc
+
+
+def _universal_filter(ctx, fn, mod, emit_stmt):
+    """The condition under which `emit_stmt` runs, as a universally quantified predicate: (element name, iterable text, predicate
+    text with polarity) for the forms
+        flag = False; for x in S: if <not P>: flag = True [break]   ...   if not flag: EMIT
+        if all(P for x in S): EMIT            for x in S: if <not P>: break   else: EMIT
+    None if the guard of the emission is not one of them."""
+    stores = stores_in(fn)
+    conds = path_conditions(mod, emit_stmt)
+    # drop the conditions that belong to the enclosing line loop's bookkeeping (blank lines etc.): keep the last one
+    for t, pol in reversed(conds):
+        # all(...)
+        if pol and isinstance(t, ast.Call) and call_name(t) == 'all' and len(t.args) == 1 and isinstance(t.args[0], (ast.GeneratorExp, ast.ListComp)) \
+                and len(t.args[0].generators) == 1 and not t.args[0].generators[0].ifs:
+            g = t.args[0].generators[0]
+            return U(g.target), U(expand(fn, g.iter, stores)), U(t.args[0].elt), True
+        # flag form
+        flag = None
+        if isinstance(t, ast.UnaryOp) and isinstance(t.op, ast.Not) and isinstance(t.operand, ast.Name) and pol:
+            flag = t.operand.id
+        elif isinstance(t, ast.Name) and not pol:
+            flag = t.id
+        if flag is not None:
+            sets = [(s_, v) for s_, v in stores.get(flag, []) if v is not None]
+            falses = [s_ for s_, v in sets if const(v) is False]
+            trues = [s_ for s_, v in sets if const(v) is True]
+            if len(falses) != 1 or len(trues) != 1 or len(sets) != 2:
+                return None
+            tset = trues[0]
+            # the loop that contains the `flag = True`
+            lp = mod.parents.get(id(tset))
+            guard = None
+            while lp is not None and not isinstance(lp, ast.For):
+                if isinstance(lp, ast.If) and guard is None:
+                    guard = lp
+                lp = mod.parents.get(id(lp))
+            if lp is None or guard is None:
+                return None
+            # `flag = False` must be (re)done for every line: same block as the loop, before it
+            outer = mod.parents.get(id(lp))
+            blk = None
+            for f_ in ('body', 'orelse'):
+                l_ = getattr(outer, f_, None)
+                if isinstance(l_, list) and any(x is lp for x in l_):
+                    blk = l_
+            if blk is None or not any(x is falses[0] for x in blk) or falses[0].lineno > lp.lineno:
+                return None
+            in_body = any(x is tset for x in guard.body)
+            pred = guard.test
+            # flag is set when the predicate FAILS: predicate = negation of the guard (if in body) or the guard itself (if in orelse)
+            if in_body:
+                if isinstance(pred, ast.UnaryOp) and isinstance(pred.op, ast.Not):
+                    ptxt, ppol = U(pred.operand), True
+                elif isinstance(pred, ast.Compare) and len(pred.ops) == 1 and isinstance(pred.ops[0], ast.NotIn):
+                    ptxt, ppol = '%s in %s' % (U(pred.left), U(pred.comparators[0])), True
+                else:
+                    ptxt, ppol = U(pred), False
+            else:
+                ptxt, ppol = U(pred), True
+            return U(lp.target), U(expand(fn, lp.iter, stores)), ptxt, ppol
+    # for-else form
+    par = mod.parents.get(id(emit_stmt))
+    if isinstance(par, ast.For) and any(x is emit_stmt for x in par.orelse):
+        brk = [x for x in walk_stmts(par.body) if isinstance(x, ast.Break)]
+        if len(brk) == 1 and isinstance(mod.parents.get(id(brk[0])), ast.If):
+            g = mod.parents.get(id(brk[0]))
+            pred = g.test
+            if isinstance(pred, ast.UnaryOp) and isinstance(pred.op, ast.Not):
+                return U(par.target), U(expand(fn, par.iter, stores)), U(pred.operand), True
+            return U(par.target), U(expand(fn, par.iter, stores)), U(pred), False
+    return None
+
+
 def r4_reemission(ctx, rule):
     n = 0
+    mod = ctx.repo.modules['edit_rules.py']
     for q in (ER + 'edit_terminal_set', ER + 'edit_length'):
         fn = ctx.fn(q)
-        adds = [s for s in walk_stmts(fn.body) if isinstance(s, ast.AugAssign) and U(s.target) == 'return_grammar']
-        txt = U(fn)
-        n += len(adds)
-        good = adds and all(U(a.value) == "''.join(line) + '\\t' + prob + '\\n'" for a in adds) \
-            and "prob = line.split('\\t')[1]" in txt and 'prob = prob.strip()' in txt and "for line in grammar.split('\\n')" in txt
-        if good:
-            ctx.ok(rule, q, 'a kept line is re-emitted as joined tokens TAB original probability text LF')
-        else:
-            ctx.bad(rule, q, 're-emission ' + str([U(a.value) for a in adds])[:100], 'survivors must keep their structure and their '
+        ems, acc = _emissions(fn)
+        n += len(ems)
+        stores = stores_in(fn)
+        # tokens = result of re.findall(<tokeniser>, line); prob = line.split('\t')[1] (strip of surrounding blanks allowed)
+        tok = [nm for nm, l_ in stores.items() if any(v is not None and isinstance(v, ast.Call) and call_name(v) == 're.findall' for s_, v in l_)]
+        probs = [nm for nm, l_ in stores.items() if any(v is not None and "split('\\t')[1]" in U(v) for s_, v in l_)]
+        line_loops = [x for x in walk_local(fn) if isinstance(x, ast.For) and U(x.iter) in ("grammar.split('\\n')", 'grammar.splitlines()')]
+        if not ems or len(tok) != 1 or len(probs) != 1 or not line_loops:
+            ctx.unk(rule, q, 're-emission not recognised (accumulator %s, token variables %s, probability variables %s)' % (acc, tok, probs))
+            continue
+        want = "''.join(%s) + '\\t' + %s + '\\n'" % (tok[0], probs[0])
+        pdefs = [U(v) for s_, v in stores[probs[0]] if v is not None]
+        pok = all(d.endswith("split('\\t')[1]") or d in ('%s.strip()' % probs[0],) or d.endswith("split('\\t')[1].strip()") for d in pdefs)
+        bad = [U(e) for st_, e in ems if U(e) != want]
+        if bad or not pok:
+            ctx.bad(rule, q, 're-emission ' + str(bad or pdefs)[:100], 'survivors must keep their structure and their '
                     'probability text unchanged, in the original order', None, fn)
+        else:
+            ctx.ok(rule, q, 'a kept line is re-emitted as joined tokens TAB original probability text LF')
     q = ER + 'check_regex'
     fn = ctx.fn(q)
-    adds = [U(s.value) for s in walk_stmts(fn.body) if isinstance(s, ast.AugAssign) and U(s.target) == 'return_grammar']
+    ems, acc = _emissions(fn)
+    adds = [U(e) for st_, e in ems]
     n += len(adds)
-    if adds == ['line', "'\\n'"]:
+    if adds == ['line', "'\\n'"] or adds == ["line + '\\n'"]:
         ctx.ok(rule, q, 'a kept line is re-emitted verbatim')
+    elif not adds:
+        ctx.unk(rule, q, 're-emission not recognised')
     else:
         ctx.bad(rule, q, 're-emission %s' % adds, 'survivors must be re-emitted verbatim', None, fn)
     # write-back writes the whole edited text
     eq = ER + 'edit_rules'
     efn = ctx.fn(eq)
     txt = U(efn)
-    if 'for line in grammar:\n            grammar_fp.write(line)' in txt or 'grammar_fp.write(grammar)' in txt:
+    if 'for line in grammar:\n            grammar_fp.write(line)' in txt or '.write(grammar)' in txt or '.writelines(grammar)' in txt:
         ctx.ok(rule, eq, 'the edited list is written back completely')
     else:
-        ctx.bad(rule, eq, 'write-back shape', 'the whole edited list must be written', None, efn)
+        ctx.unk(rule, eq, 'write-back of the edited list not recognised')
     ctx.floor(rule, 'edit_rules.py', n, 3, 're-emission sites')
 
 
@@ -298,28 +407,46 @@ def r5_filter_kernels(ctx, rule):
                     {'disagreements': wrong[:10]}, chain)
         else:
             ctx.ok(rule, q, 'keep iff total == 0 or (total >= min and (max == 0 or total <= max)) on all %d orderings' % states)
-    # terminal-set kernel
+    # terminal-set kernel: keep iff every token letter is in the set
+    mod = ctx.repo.modules['edit_rules.py']
     q = ER + 'edit_terminal_set'
     fn = ctx.fn(q)
-    txt = U(fn)
     ts = params(fn)[1]
-    good = ('skip = False' in txt and ('for x in line:\n            if x[0] not in %s:\n                skip = True' % ts) in txt
-            and 'if not skip:' in txt)
-    sets = [s for s in walk_stmts(fn.body) if isinstance(s, ast.Assign) and U(s.targets[0]) == 'skip']
-    if good and len(sets) == 2:
-        ctx.ok(rule, q, 'a structure is kept iff every token letter is in the terminal set')
+    ems, acc = _emissions(fn)
+    uf = _universal_filter(ctx, fn, mod, ems[0][0]) if ems else None
+    stores = stores_in(fn)
+    tok = [nm for nm, l_ in stores.items() if any(v is not None and isinstance(v, ast.Call) and call_name(v) == 're.findall' for s_, v in l_)]
+    if uf is None or len(tok) != 1:
+        ctx.unk(rule, q, 'terminal-set filter is not in a recognised universal form (flag loop, all(...), for/else)')
     else:
-        ctx.bad(rule, q, 'terminal-set filter shape', 'keep iff all labels lie in the set (flag set only on a miss, cleared per line)', None, fn)
-    # regex kernel
+        x, it, pred, pol = uf
+        good = pol and pred == '%s[0] in %s' % (x, ts) and (it == tok[0] or it.startswith('re.findall('))
+        if good:
+            ctx.ok(rule, q, 'a structure is kept iff every token letter is in the terminal set', {'forall': uf})
+        else:
+            ctx.bad(rule, q, 'terminal-set filter: keep iff for all %s in %s: %s%s' % (x, it, '' if pol else 'not ', pred),
+                    'keep iff all labels lie in the set', {'forall': uf}, fn)
+    # regex kernel: keep iff every regex matches the structure string (field 0 of the line)
     q = ER + 'check_regex'
     fn = ctx.fn(q)
-    txt = U(fn)
-    good = 'stop = False' in txt and 'if re.search(regex, structure):\n                continue\n            else:\n                stop = True' in txt \
-        and 'if not stop:' in txt and "structure = line.split('\\t')[0]" in txt
-    if good:
-        ctx.ok(rule, q, 'a structure is kept iff every regex matches the structure string')
+    ps = params(fn)
+    ems, acc = _emissions(fn)
+    uf = _universal_filter(ctx, fn, mod, ems[0][0]) if ems else None
+    stores = stores_in(fn)
+    if uf is None:
+        ctx.unk(rule, q, 'regex filter is not in a recognised universal form (flag loop, all(...), for/else)')
     else:
-        ctx.bad(rule, q, 'regex filter shape', 'keep iff all regexes match the structure (not the probability)', None, fn)
+        x, it, pred, pol = uf
+        m = re.fullmatch(r're\.search\((\w+), (\w+)\)', pred)
+        struct_ok = False
+        if m and m.group(1) == x:
+            sdefs = [U(v) for s_, v in stores.get(m.group(2), []) if v is not None]
+            struct_ok = sdefs == ["line.split('\\t')[0]"]
+        if pol and m and struct_ok and it == ps[1]:
+            ctx.ok(rule, q, 'a structure is kept iff every regex matches the structure string', {'forall': uf})
+        else:
+            ctx.bad(rule, q, 'regex filter: keep iff for all %s in %s: %s%s' % (x, it, '' if pol else 'not ', pred),
+                    'keep iff all regexes match the structure (not the probability)', {'forall': uf}, fn)
 
 
 def r6_option_plumbing(ctx, rule):
